@@ -46,7 +46,7 @@ def strategy(tier, unit):
     icell = st.tuples(st.integers(3, 12), st.integers(3, 12), st.integers(3, 12), st.sampled_from([90, 90, 80, 100, 95]),
                       st.sampled_from([90, 100, 105, 80, 110]), st.sampled_from([90, 90, 120, 95, 85])).map(list)
     return st.fixed_dictionaries({"cell": st.one_of(red, red, fam, icell), "scale": st.one_of(st.just(1.0), S.logfl(0.5, 100.0)),
-                                  "M": st.one_of(st.none(), st.integers(0, 6959)),
+                                  "M": st.one_of(st.none(), st.integers(0, 6959)), "M2": st.one_of(st.none(), st.none(), st.integers(0, 6959)),
                                   "mod": st.sampled_from(["tools", "laue"]),
                                   "pre_uvw": st.sampled_from([None, None, 1, 2, 4, 5])})
 
@@ -125,6 +125,11 @@ def check(case, ctx):
     transformed = case["M"] is not None and not integral
     if transformed:
         M = uni()[case["M"]]
+        if case.get("M2") is not None:
+            # product of two such matrices: entries beyond +-1 and much more oblique settings (cases whose reduced basis
+            # then falls outside |u|,|v|,|w| <= 2 are recognised and skipped below)
+            M = M @ uni()[case["M2"]]
+            ctx.event("transformed-by-a-product")
         G = M.T @ G @ M
         cell = O.cell_from_metric(G)
         G = O.metric(cell)[0]
